@@ -146,6 +146,24 @@ func (c *ExecuteCtx) AdjustChunkCache(chooseIdxes []int) {
 		}
 		c.FieldChunkCaches[k] = nv
 	}
+	// The results cached per scanned chunk contain the rows that are
+	// filtered out, they must not be used for the filtered chunk
+	clear(c.FieldChunkKeyCaches)
+}
+
+// BindChunkCache makes the adjusted field results available to the
+// expressions that are evaluated on the filtered chunk later.
+func (c *ExecuteCtx) BindChunkCache(chunk []KVPair) {
+	if !c.EnableCache || len(chunk) == 0 {
+		return
+	}
+	for name, v := range c.FieldChunkCaches {
+		if len(v) != len(chunk) {
+			continue
+		}
+		ckey := fmt.Sprintf("%s-%s", name, string(chunk[0].Key))
+		c.FieldChunkKeyCaches[ckey] = v
+	}
 }
 
 type FinalPlan interface {
